@@ -468,11 +468,9 @@ func (ex *Exec) merge(g *Term, a, b Value) Value {
 		}
 		return &FuncV{Alts: alts}
 	case *RangeV:
-		y := b.(*RangeV)
-		if x.Pos == y.Pos {
-			return x
-		}
-		panic("merge of diverging range iterators")
+		// iterators that differ here have left their loop (the loop's own states are kept apart
+		// by their iteration counts): the value is dead
+		return x
 	}
 	panic(fmt.Sprintf("merge: unsupported %T", a))
 }
